@@ -91,6 +91,60 @@ def _shape(arg):
     return "unclamped (%s)" % ev.show(arg)[:80]
 
 
+def degrees(t, deg_of_leaf, acc):
+    """Homogeneity degree of every sub-term under a uniform scaling of the (non-direction) inputs; returns the
+    degree of t (a Fraction) or None when the sub-term is not homogeneous. acc collects (degree, subterm)."""
+    from fractions import Fraction as Fr
+    if isinstance(t, int):
+        return Fr(0)
+    if not isinstance(t, tuple) or not t:
+        return None
+    k = t[0]
+    if k in ("c", "pi"):
+        d = Fr(0)
+    elif k == "leaf":
+        d = Fr(deg_of_leaf(t[1]))
+    elif k in ("add", "sub"):
+        a, b = degrees(t[1], deg_of_leaf, acc), degrees(t[2], deg_of_leaf, acc)
+        d = a if a == b else (a if b is None else (b if a is None else max(a, b)))
+    elif k == "mul":
+        a, b = degrees(t[1], deg_of_leaf, acc), degrees(t[2], deg_of_leaf, acc)
+        d = None if a is None or b is None else a + b
+    elif k == "div":
+        a, b = degrees(t[1], deg_of_leaf, acc), degrees(t[2], deg_of_leaf, acc)
+        d = None if a is None or b is None else a - b
+    elif k in ("neg", "cast"):
+        d = degrees(t[-1], deg_of_leaf, acc)
+    elif k == "fn" and t[1] == "sqrt":
+        a = degrees(t[2], deg_of_leaf, acc)
+        d = None if a is None else a / 2
+    elif k == "fn" and t[1] == "pow" and len(t) == 4:
+        a = degrees(t[2], deg_of_leaf, acc)
+        e = const_value(t[3])
+        d = None if a is None or e is None else a * e
+    elif k == "fn" and t[1] in ("clamp", "min", "max", "abs", "fmin", "fmax"):
+        d = degrees(t[2], deg_of_leaf, acc)
+        for x in t[3:]:
+            degrees(x, deg_of_leaf, acc)
+    elif k == "fn":
+        for x in t[2:]:
+            degrees(x, deg_of_leaf, acc)
+        d = Fr(0)
+    elif k == "g":
+        degrees(t[1], deg_of_leaf, acc)
+        d = degrees(t[2], deg_of_leaf, acc)
+        degrees(t[3], deg_of_leaf, acc)
+    elif k == "cmp":
+        degrees(t[2], deg_of_leaf, acc)
+        degrees(t[3], deg_of_leaf, acc)
+        d = Fr(0)
+    else:
+        d = None
+    if d is not None:
+        acc.append((d, t))
+    return d
+
+
 def operand_kind(t):
     t = strip_cvref(t)
     return "direction" if re.match(r"PhQ::(Planar)?Direction<", t) else "vector"
@@ -103,6 +157,8 @@ def run(chk):
                      "with dot/(|a||b|); quantity-level angle constructors/members are shown to delegate to the kernels")
     chk.rule("R1", "the argument of every std::acos reachable from an angle kernel is provably in [-1, 1] in floating point (clamp / min-max / saturation)")
     chk.rule("R2", "the clamped expression equals dot(a,b)/(|a||b|) (no division by the norm of a direction operand): symmetric, scale-free, 1 on parallel and -1 on antiparallel inputs")
+    chk.rule("R4", "no intermediate of an angle computation grows faster than the squared operand lengths (homogeneity degree within [-2, 2]): "
+                   "inside the range where squared lengths neither overflow nor underflow nothing else does")
     chk.rule("R3", "every quantity-level Angle(Q, Q) constructor and Angle() member evaluates to the kernel applied to the operands' stored vectors, in order")
     chk.assumptions += ["with the argument in [-1, 1] (and not NaN), acos returns a non-NaN value in [0, pi] (libm contract)",
                         "non-zero finite inputs whose squared norms neither overflow nor underflow",
@@ -181,6 +237,15 @@ def run(chk):
                     chk.holds("R2", sig, "cosine = a.b%s%s" % ("/|a|" if ka == "vector" else "", "/|b|" if kb == "vector" else ""), loc)
                 else:
                     chk.violated("R2", sig, "cosine computed as %s, expected %s" % (sympy.simplify(got), sympy.simplify(want)), loc, witness=nf.witness(got, want))
+                # R4: no intermediate of degree > 2 (or < -2) in the lengths of the vector operands
+                dir_prefixes = {"p%d" % i for i, t in enumerate(ptypes) if operand_kind(t) == "direction"}
+                acc = []
+                degrees(term, lambda name: 0 if name.split(".")[0] in dir_prefixes else 1, acc)
+                worst = max(acc, key=lambda x: abs(x[0])) if acc else (0, None)
+                if abs(worst[0]) > 2:
+                    chk.violated("R4", sig, "an intermediate value scales with the %s power of the operand lengths (%s): it overflows or underflows although the squared lengths do not, so the angle depends on the lengths / can be NaN inside the stated range" % (worst[0], ev.show(worst[1])[:160]), loc)
+                else:
+                    chk.holds("R4", sig, "all intermediates have degree within [-2, 2] in the operand lengths", loc)
                 if is_kernel:
                     n_k += 1
                     kernels[tuple(re.sub(r"<.*", "", strip_cvref(t)) for t in ptypes)] = term
